@@ -45,11 +45,19 @@ class Gen:
     def expr(self, d, fs):
         r = self.r
         ch = ["num", "ref", "ref", "ref", "assign", "addassign", "postinc", "typeof", "log", "log"]
+        if fs.get("argsok"):
+            ch += ["arglen", "argget", "argget", "argset"]
         if d > 0:
             ch += ["fn", "fn", "call", "call", "call", "add", "lt", "seq"]
         c = r.choice(ch)
         if c == "num":
             return N("num", n=r.randint(0, 3))
+        if c == "arglen":
+            return N("arglen")
+        if c == "argget":
+            return N("argget", n=r.randint(0, 2))
+        if c == "argset":
+            return N("argset", n=r.randint(0, 2), k=[self.expr(d - 1, fs)])
         if c in ("ref", "typeof"):
             return N(c, x=self.anyname(fs))
         if c in ("assign", "addassign"):
@@ -75,9 +83,33 @@ class Gen:
         kind = "func" if decl_name else r.choice(["arrow", "func", "named"])
         params = r.sample(PARAMS, r.randint(0, 2))
         name = decl_name or (r.choice(FUNS) if kind == "named" else "")
-        inner = dict(declared=set(params), params=params, loopvars=set(), incatch=False, top=True, outer=fs["declared"] | fs.get("outer", set()))
+        inner = dict(declared=set(params), params=params, loopvars=set(), incatch=False, top=True, outer=fs["declared"] | fs.get("outer", set()),
+                     argsok=(kind != "arrow") or fs.get("argsok", False), revar=set(params))
+        defaults = [N("none") for _ in params]
+        if params and r.random() < 0.35:
+            # default value expressions live in the parameter scope: they see the parameters (earlier ones initialised) and the outer scope
+            dfs = dict(inner, declared=set(params), revar=set())
+            for i in range(len(params)):
+                if r.random() < 0.7:
+                    defaults[i] = self.dexpr(max(d, 1), dfs, params)
         body = self.stmts(d, inner, top=True)
-        return N("fdecl" if decl_name else "fn", x=name, kind=kind, p=params, s=1 if r.random() < 0.15 else 0, k=body)
+        strict = 1 if (r.random() < 0.15 and all(x["t"] == "none" for x in defaults)) else 0
+        return N("fdecl" if decl_name else "fn", x=name, kind=kind, p=params, d=defaults, s=strict, k=body)
+
+    def dexpr(self, d, fs, params):
+        """a default value: a number, another parameter, or a closure over the parameter scope"""
+        r = self.r
+        c = r.random()
+        if c < 0.3:
+            return N("num", n=r.randint(0, 3))
+        if c < 0.55:
+            return N("ref", x=r.choice(params + VARS[:2]))
+        if c < 0.8:
+            x = r.choice(params + VARS[:2])
+            body = [N("return", k=[N("log", k=[N("ref", x=x)])])] if r.random() < 0.5 else \
+                   [N("expr", k=[N("addassign", x=x, k=[N("num", n=1)])]), N("return", k=[N("ref", x=x)])]
+            return N("fn", x="", kind=r.choice(["arrow", "func"]), p=[], d=[], s=0, k=body)
+        return N("log", k=[N("ref", x=r.choice(params + VARS[:2]))])
 
     def stmts(self, d, fs, top=False, maxn=4):
         out = []
@@ -86,7 +118,10 @@ class Gen:
             nm = self.fresh(fs, FUNS)
             if nm:
                 fs["declared"].add(nm)
+                fs.setdefault("revar", set()).add(nm)
                 out.append(self.fn(d - 1, fs, decl_name=nm))
+                if r.random() < 0.15:       # a second declaration of the same function name: the last one wins
+                    out.append(self.fn(d - 1, fs, decl_name=nm))
         for _ in range(r.randint(1, maxn)):
             out.append(self.stmt(d, fs, blocktop=True))
         if top and r.random() < 0.2:
@@ -100,7 +135,11 @@ class Gen:
         r = self.r
         ch = ["expr", "expr", "expr", "decl", "decl"]
         if d > 0:
-            ch += ["block", "if", "for", "for", "try", "try", "return", "expr"]
+            ch += ["block", "if", "for", "for", "try", "try", "return", "expr", "switch"]
+        if fs.get("inloop") or fs.get("inswitch"):
+            ch += ["break"]
+        if fs.get("inloop"):
+            ch += ["continue"]
         c = r.choice(ch)
         if d > 0 and r.random() < 0.04:
             c = "throw"
@@ -109,14 +148,29 @@ class Gen:
             if kind != "var" and not blocktop:
                 kind = "var"
             nm = self.fresh(fs, VARS + FUNS)
+            if kind == "var" and fs.get("revar") and r.random() < 0.3:
+                nm = r.choice(sorted(fs["revar"]))           # var over a parameter / an earlier var / a function declaration
             if nm is None:
                 c = "expr"
             else:
                 fs["declared"].add(nm)
+                if kind == "var":
+                    fs.setdefault("revar", set()).add(nm)
                 init = [self.expr(d, fs)] if (kind == "const" or r.random() < 0.8) else []
                 return N(kind, x=nm, k=init)
         if c == "expr":
             return N("expr", k=[self.expr(d, fs)])
+        if c in ("break", "continue"):
+            return N(c)
+        if c == "switch":
+            fs2 = dict(fs, inswitch=True)
+            vals = r.sample([0, 1, 2, 3], r.randint(1, 3))
+            cases = []
+            for v in vals:
+                cases.append(N("case", n=0, k=[N("num", n=v)] + [self.stmt(d - 1, fs2, blocktop=True) for _ in range(r.randint(0, 2))]))
+            if r.random() < 0.6:
+                cases.insert(r.randint(0, len(cases)), N("case", n=1, k=[N("num", n=0)] + [self.stmt(d - 1, fs2, blocktop=True) for _ in range(r.randint(0, 2))]))
+            return N("switch", k=[self.expr(d - 1, fs)] + cases)
         if c == "block":
             return self.block(d - 1, fs)
         if c == "if":
@@ -129,7 +183,7 @@ class Gen:
             if nm is None:
                 return N("expr", k=[self.expr(d, fs)])
             fs["declared"].add(nm)
-            fs2 = dict(fs, loopvars=fs["loopvars"] | {nm})
+            fs2 = dict(fs, loopvars=fs["loopvars"] | {nm}, inloop=True, inswitch=False)
             isvar = 1 if r.random() < 0.25 else 0
             init = N("num", n=0)
             if r.random() < 0.4:       # a closure created in the initialiser sees the loop variable of the initialiser's environment
@@ -161,7 +215,7 @@ class Gen:
             body = [N("expr", k=[N("addassign", x=nm, k=[N("num", n=1)])]), N("return", k=[N("ref", x=nm)])]
         else:
             body = [N("return", k=[N("log", k=[N("ref", x=nm)])])]
-        return N("fn", x="", kind=r.choice(["arrow", "func"]), p=[], s=0, k=body)
+        return N("fn", x="", kind=r.choice(["arrow", "func"]), p=[], d=[], s=0, k=body)
 
 
 def random_program(pid, rnd, maxd=3):
@@ -192,6 +246,8 @@ def has_top_return(stmts):
             return True
         if t == "try" and any(has_top_return([b]) for b in s["k"]):
             return True
+        if t == "switch" and any(has_top_return(cs["k"][1:]) for cs in s["k"][1:]):
+            return True
     return False
 
 
@@ -219,13 +275,24 @@ def pe(e, o):
         return "(%s, %s)" % (pe(e["k"][0], o), pe(e["k"][1], o))
     if t == "call":
         return "(%s)(%s)" % (pe(e["k"][0], o), ", ".join(pe(a, o) for a in e["k"][1:]))
+    if t == "arglen":
+        return "arguments.length"
+    if t == "argget":
+        return "arguments[%d]" % e["n"]
+    if t == "argset":
+        return "(arguments[%d] = %s)" % (e["n"], pe(e["k"][0], o))
     if t == "fn":
         body = fbody(e, o, 0)
-        ps = ", ".join(e["p"])
+        ps = params(e, o)
         if e["kind"] == "arrow":
             return "((%s) => {%s})" % (ps, body)
         return "(function %s(%s) {%s})" % (e["x"] if e["kind"] == "named" else "", ps, body)
     raise AssertionError(t)
+
+
+def params(fn, o):
+    d = fn.get("d") or []
+    return ", ".join(p + (" = " + pe(d[i], o) if i < len(d) and d[i]["t"] != "none" else "") for i, p in enumerate(fn["p"]))
 
 
 def fbody(fn, o, ind, strict=None):
@@ -249,7 +316,7 @@ def ps(stmts, o, ind):
         elif t in ("var", "let", "const"):
             out.append(p + "%s %s%s;" % (t, s["x"], (" = " + pe(s["k"][0], o)) if s["k"] else ""))
         elif t == "fdecl":
-            out.append(p + "function %s(%s) {%s}" % (s["x"], ", ".join(s["p"]), fbody(s, o, ind)))
+            out.append(p + "function %s(%s) {%s}" % (s["x"], params(s, o), fbody(s, o, ind)))
         elif t == "block":
             out.append(p + "{\n" + ps(s["k"], o, ind + 1) + "\n" + p + "}")
         elif t == "if":
@@ -260,6 +327,18 @@ def ps(stmts, o, ind):
         elif t == "for":
             out.append(p + "for (%s %s = %s; %s; %s) {\n%s\n%s}" % ("var" if s["n"] == 1 else "let", s["x"], pe(s["k"][0], o), pe(s["k"][1], o),
                                                                     pe(s["k"][2], o), ps(s["k"][3]["k"], o, ind + 1), p))
+        elif t in ("break", "continue"):
+            out.append(p + t + ";")
+            if o.get("deadcode"):
+                out.append(p + "LOG(987656);")
+        elif t == "switch":
+            r = p + "switch (%s) {\n" % pe(s["k"][0], o)
+            for cs in s["k"][1:]:
+                r += p + ("  default:\n" if cs["n"] == 1 else "  case %s:\n" % pe(cs["k"][0], o))
+                body = ps(cs["k"][1:], o, ind + 2)
+                if body:
+                    r += body + "\n"
+            out.append(r + p + "}")
         elif t == "return":
             out.append(p + "return %s;" % pe(s["k"][0], o))
             if o.get("deadcode"):
